@@ -82,4 +82,95 @@ non-negative one; for a signed format the encoder may instead use `operand + 2^6
 def operandFor (asz base target : Nat) : Nat :=
   (target + 2 ^ (8 * asz) - base % 2 ^ (8 * asz)) % 2 ^ (8 * asz)
 
+/-! ## abstract entries and their encoding: what a well-formed section is
+
+`encodeFrameSection` lays out a list of abstract CIEs/FDEs (and zero-length words) as the DWARF /
+LSB text prescribes; a section is *well-formed* when it is the image of such a list satisfying
+`WF`. (`daf` is restricted to one-byte SLEB128, `-64 ≤ daf < 64`, and pointer operands to the
+formats `encodeOperand` covers — no sleb128 —, for lack of a signed-LEB128 round-trip theorem.) -/
+
+open Gimli.CfiEntry
+
+/-- one augmentation character after the leading `z`, with its argument in the augmentation data -/
+inductive AugArg where
+  /-- `L`: encoding of the LSDA pointers of the FDEs -/
+  | lsda (enc : Nat)
+  /-- `P`: encoding and operand of the personality routine pointer -/
+  | pers (enc : Nat) (operand : Nat)
+  /-- `R`: encoding of the FDE address fields -/
+  | fdeEnc (enc : Nat)
+  /-- `S`: signal trampoline -/
+  | signal
+  deriving Repr
+
+def AugArg.char : AugArg → UInt8
+  | .lsda _ => 0x4c
+  | .pers _ _ => 0x50
+  | .fdeEnc _ => 0x52
+  | .signal => 0x53
+
+def AugArg.data (e : Endian) (asz : Nat) : AugArg → Bytes
+  | .lsda enc => [UInt8.ofNat enc]
+  | .pers enc x => UInt8.ofNat enc :: (encodeOperand e enc asz x).getD []
+  | .fdeEnc enc => [UInt8.ofNat enc]
+  | .signal => []
+
+/-- abstract CIE -/
+structure ACie where
+  format : Format
+  version : Nat
+  /-- the characters after `z`; `[]` = empty augmentation string -/
+  args : List AugArg
+  /-- unused bytes at the end of the augmentation data (covered by its length) -/
+  augPad : Bytes
+  /-- address size: encoded (with segment size 0) only in `.debug_frame` version 4 -/
+  asz : Nat
+  caf : Nat
+  daf : Int
+  rar : Nat
+  instr : Bytes
+
+/-- one-byte signed LEB128 of `-64 ≤ v < 64` -/
+def sleb1 (v : Int) : UInt8 := UInt8.ofNat (v % 128).toNat
+
+/-- the length field: 4 bytes, or `0xffff_ffff` and 8 bytes -/
+def lengthField (e : Endian) (f : Format) (n : Nat) : Bytes :=
+  match f with
+  | .dwarf32 => Ints.toBytes e 4 n
+  | .dwarf64 => Ints.toBytes e 4 0xffff_ffff ++ Ints.toBytes e 8 n
+
+/-- the CIE id: 0 in `.eh_frame`, all-ones of the format's width in `.debug_frame` -/
+def cieIdField (eh : Bool) (e : Endian) (f : Format) : Bytes :=
+  if eh then Ints.toBytes e 4 0
+  else match f with
+    | .dwarf32 => Ints.toBytes e 4 0xffff_ffff
+    | .dwarf64 => Ints.toBytes e 8 0xffff_ffff_ffff_ffff
+
+def ACie.augString (ci : ACie) : Bytes := if ci.args.isEmpty then [] else 0x7a :: ci.args.map AugArg.char
+
+def ACie.augData (e : Endian) (ci : ACie) : Bytes := ci.args.flatMap (AugArg.data e ci.asz) ++ ci.augPad
+
+/-- address size and segment size: only in `.debug_frame` version 4 -/
+def ACie.aszBytes (eh : Bool) (ci : ACie) : Bytes :=
+  if ¬ eh ∧ ci.version = 4 then [UInt8.ofNat ci.asz, 0] else []
+
+/-- return address register: one byte in version 1, ULEB128 later -/
+def ACie.rarBytes (ci : ACie) : Bytes :=
+  if ci.version = 1 then [UInt8.ofNat ci.rar] else Leb.encodeU ci.rar
+
+/-- augmentation data with its ULEB128 length, present iff the string starts with `z` -/
+def ACie.augBlock (e : Endian) (ci : ACie) : Bytes :=
+  if ci.args.isEmpty then [] else Leb.encodeU (ci.augData e).length ++ ci.augData e
+
+/-- everything after the CIE id: version, augmentation string, (address size, segment size),
+code and data alignment factors, return address register, (augmentation data), instructions -/
+def ACie.fields (eh : Bool) (e : Endian) (ci : ACie) : Bytes :=
+  UInt8.ofNat ci.version :: (ci.augString ++ 0 :: (ci.aszBytes eh ++ (Leb.encodeU ci.caf ++
+    sleb1 ci.daf :: (ci.rarBytes ++ (ci.augBlock e ++ ci.instr)))))
+
+/-- a CIE entry: length, id, fields -/
+def encodeCie (eh : Bool) (e : Endian) (ci : ACie) : Bytes :=
+  let body := cieIdField eh e ci.format ++ ci.fields eh e
+  lengthField e ci.format body.length ++ body
+
 end Gimli.Spec.Frame
